@@ -150,8 +150,9 @@ func (g *gen) stmt(fr string, d int) []a.Pipeline {
 			for i, n := 0, 1+g.n(3); i < n; i++ {
 				lv, val := g.lv(g.p(0.12))
 				as := a.Assign{Lvs: []a.LValue{lv}, Rhs: []a.Expr{val}}
-				if g.p(0.2) {
-					lv2, val2 := g.lv(false)
+				if g.p(0.3) {
+					// the second lvalue may fail after the first was assigned
+					lv2, val2 := g.lv(g.p(0.35))
 					if lv2.X != lv.X {
 						as = a.Assign{Lvs: []a.LValue{lv, lv2}, Rhs: []a.Expr{val, val2}}
 						if g.p(0.3) {
